@@ -28,8 +28,8 @@ func init() {
 type rawBackend struct {
 	ln      net.Listener
 	mu      sync.Mutex
-	scripts map[string][]byte         // case -> response wire bytes
-	seen    map[string]*recordedReq   // case -> request as received
+	scripts map[string][]byte       // case -> response wire bytes
+	seen    map[string]*recordedReq // case -> request as received
 }
 
 type recordedReq struct {
